@@ -9,7 +9,7 @@ PROTO = {"tcp": 1, "udp": 2, "icmp": 3}
 REMOTE = ["10.9.0.5", "172.16.0.5"]
 PORTS = [22, 80, 5432, 219, 123, 21]
 RIPS = ["10.0.1.2", "10.0.1.3", "10.0.2.2", "10.0.2.3", "10.0.3.2", "10.0.3.3", "10.9.0.5"]
-WCS = ["0.0.0.255", "0.0.255.255", "0.0.0.1"]
+WCS = ["0.0.0.255", "0.0.255.255", "0.0.0.1", "0.0.0.0", "255.255.255.255", "0.255.0.255"]     # incl. exact-host, any, non-contiguous
 
 
 def ip2i(s):
